@@ -50,6 +50,18 @@ def handle : Handler := fun j => do
     let again := (Dec.runSteps true fs mem [] xs ss').2
     return ok (Json.mkObj [("full", jList jTerm full), ("cached", jList jOptTerm cached),
       ("uncached", jList jOptTerm uncached), ("after_history", jList jOptTerm again)])
+  | "loop" =>
+    -- transcribe_batch's greedy loop with a SCRIPTED network: line b emits script[b][step] at step `step` (the boundary
+    -- symbol once its script is used up)
+    let script ← getNatMat j "script"
+    let eos ← getNat j "eos"
+    let ign ← getNat j "ign"
+    let W ← getNat j "width"
+    let next := fun (part : List (List Nat)) => script.map fun ln => ln.getD part.length eos
+    let (rows, iters) := transcribeLoop next eos W script.length
+    let lines := (List.range script.length).map fun b => rows.map fun r => r.getD b eos
+    return ok (Json.mkObj [("iterations", jNat iters), ("rows", jList jNats rows),
+      ("texts", jList (fun l => jNats (postprocess eos ign l)) lines)])
   | "postprocess" =>
     return ok (jNats (postprocess (← getNat j "eos") (← getNat j "ign") (← getNatList j "line")))
   | _ => throw s!"C20: unknown op {op}"
